@@ -38,7 +38,7 @@ pub fn build(tape: &[u16]) -> Case {
     let k = t.choose(n);
     let fault_kind = t.choose(3);
     let items: Vec<String> = (0..n).map(|i| format!("{}", 1 + ((i * 3 + t.choose(3)) % 9))).collect();
-    let template = t.choose(10);
+    let template = t.choose(12);
     let mut probes: Vec<String> = Vec::new();
     let mut setup = Vec::new();
     if t.chance(1, 2) {
@@ -115,6 +115,39 @@ pub fn build(tape: &[u16]) -> Case {
             probes.push("CREATE (:U {k: 99, uid: 602})".to_string());
             probes.push("CREATE (:U {k: 20, uid: 603})".to_string());
             (stmt, None, vec![], "single_row_set_unique", "duplicate_constrained_value".to_string())
+        }
+        10 | 11 => {
+            // single-row writes refused by a unique constraint part-way through building their
+            // entities: MERGE that matches nothing and collides while creating, CREATE of a path
+            // whose second node collides, MATCH..CREATE of a relationship to a colliding node,
+            // MERGE..ON CREATE SET of a duplicate value
+            setup.push("CREATE CONSTRAINT ON (u:U) ASSERT u.k IS UNIQUE".to_string());
+            for i in 0..(n + 1) {
+                setup.push(format!("CREATE (:U {{k: {}, name: 'y{}', uid: {}}})", 20 + i, i, 500 + i));
+            }
+            let dup = 20 + (k % (n + 1));
+            // (statement, what the known absence of a statement-level rollback (KF-C05-1) may leave
+            // behind: entities completed before the one that collides). The single-node MERGE
+            // forms undo their own half-built node on the unchanged tree: nothing may remain.
+            let (stmt, partial): (String, Vec<Vec<String>>) = match (template, t.choose(4)) {
+                (10, 0) => (format!("MERGE (n:U {{k: {dup}, name: 'x'}})"), vec![]),
+                (10, 1) => (format!("MERGE (n:U {{k: {dup}, name: 'x'}}) ON CREATE SET n.uid = 600 RETURN n.uid"), vec![]),
+                (10, 2) => (
+                    format!("MERGE (n:U {{uid: 600}}) ON CREATE SET n.name = 'x', n.k = {dup}"),
+                    vec![vec!["CREATE (:U {uid: 600, name: 'x'})".to_string()], vec!["CREATE (:U {uid: 600})".to_string()]],
+                ),
+                (10, _) => (format!("MERGE (a:X {{uid: 600}})-[:R]->(b:U {{k: {dup}, name: 'x'}})"), vec![vec!["CREATE (:X {uid: 600})".to_string()]]),
+                (_, 0) => (format!("CREATE (:X {{uid: 600}})-[:R {{rid: 1}}]->(:U {{k: {dup}, name: 'x'}})"), vec![vec!["CREATE (:X {uid: 600})".to_string()]]),
+                (_, 1) => (format!("MATCH (a:U {{uid: 500}}) CREATE (a)-[:R {{rid: 1}}]->(:U {{k: {dup}, name: 'x'}})"), vec![]),
+                (_, 2) => (format!("CREATE (:U {{k: 99, uid: 600}}), (:U {{k: {dup}, uid: 601}})"), vec![vec!["CREATE (:U {k: 99, uid: 600})".to_string()]]),
+                (_, _) => (
+                    format!("MATCH (a:U {{uid: 500}}) CREATE (a)-[:R {{rid: 1}}]->(b:X {{uid: 600}}), (b)-[:R {{rid: 2}}]->(:U {{k: {dup}}})"),
+                    vec![vec!["CREATE (:X {uid: 600})".to_string()], vec!["MATCH (a:U {uid: 500}) CREATE (a)-[:R {rid: 1}]->(b:X {uid: 600})".to_string()]],
+                ),
+            };
+            probes.push("CREATE (:U {k: 99, uid: 700})".to_string());
+            probes.push(format!("CREATE (:U {{k: {dup}, uid: 701}})"));
+            (stmt, None, partial, "single_row_write_refused_by_unique_constraint", "duplicate_constrained_value".to_string())
         }
         8 | 9 => {
             // SET n:U refused by one of two unique constraints on :U — the property that was
@@ -289,7 +322,7 @@ pub fn judge(case: &Case, kf_active: bool) -> Verdict {
                 }
             }
         }
-        return Verdict::Held(case.k > 0 || case.template == "single_row_set_unique" || case.template == "label_set_two_unique_constraints");
+        return Verdict::Held(case.k > 0 || case.template == "single_row_set_unique" || case.template == "label_set_two_unique_constraints" || case.template == "single_row_write_refused_by_unique_constraint");
     }
     if kf_active {
         // no statement-level atomicity: the state equals "rows before the failing one applied"
@@ -332,7 +365,7 @@ pub fn run(args: &Args) {
     let mut ev = Evidence::new(
         args,
         "fault_enumeration",
-        "graph x multi-row write statement (UNWIND..CREATE node/path, UNWIND..MERGE..ON CREATE SET, MATCH..SET per node, UNWIND..CREATE and MATCH..SET under a unique constraint, SET n:Label under two unique constraints, UNWIND..WITH..CREATE) with one fault planted at a generated row position k of n (integer division by zero, operand type error, duplicate constrained value), with and without a property index; if the statement returns an error the id-preserving dump (nodes, labels, typed properties in both stores, relationships), index and constraint lists and index-backed lookups must be exactly as before, and follow-up CREATEs probing free and claimed constrained values must be accepted/refused exactly as on a twin store that never ran the failed statement. Non-trivial = the statement failed and at least one row precedes the fault; distinct = distinct (graph, setup, statement).",
+        "graph x multi-row write statement (UNWIND..CREATE node/path, UNWIND..MERGE..ON CREATE SET, MATCH..SET per node, UNWIND..CREATE and MATCH..SET under a unique constraint, SET n:Label under two unique constraints, single-row MERGE / CREATE path / MATCH..CREATE refused by a unique constraint while building their entities, UNWIND..WITH..CREATE) with one fault planted at a generated row position k of n (integer division by zero, operand type error, duplicate constrained value), with and without a property index; if the statement returns an error the id-preserving dump (nodes, labels, typed properties in both stores, relationships), index and constraint lists and index-backed lookups must be exactly as before, and follow-up CREATEs probing free and claimed constrained values must be accepted/refused exactly as on a twin store that never ran the failed statement. Non-trivial = the statement failed and at least one row precedes the fault; distinct = distinct (graph, setup, statement).",
     );
     ev.assume("a statement the engine executes despite the planted fault is counted as trivial, not as a violation");
     let kf = Known::load(args);
